@@ -19,7 +19,9 @@ Record cobs := {
   ob_hops : list Z;       (* distinct next hops its requests reached *)
   ob_resets : Z;          (* Filter.Reset calls during the round *)
   ob_first : Z;           (* first request: 1 interleaved form, 0 basic form, -1 no request *)
-  ob_vals : list Z }.     (* results of Filter.Do during the round = offsets it measured *)
+  ob_vals : list Z;       (* results of Filter.Do during the round = offsets it measured *)
+  ob_old : bool }.        (* its previous accepted exchange is 3 s old or older (an interleaved request is
+                             only possible within 3 s) *)
 
 Fixpoint zmem (x : Z) (l : list Z) : bool :=
   match l with [] => false | y :: r => (x =? y) || zmem x r end.
@@ -49,7 +51,8 @@ Definition ob_meas (o : cobs) : list Z := match rev (ob_vals o) with [] => [] | 
 Definition sticky_ok (fps : list Z) (o : cobs) (keep : bool) : bool :=
   if keep then
     match ob_hops o with
-    | [p] => (nth (Z.to_nat p) fps (-1) =? ob_fp o) && (ob_resets o =? 0) && (ob_first o =? 1)
+    | [p] => (nth (Z.to_nat p) fps (-1) =? ob_fp o) && (ob_resets o =? 0)
+             && (ob_first o =? (if ob_old o then 0 else 1))
     | _ => false
     end
   else
